@@ -164,4 +164,117 @@ theorem bfsPath_shift (π : List Str) (q : List QItem) :
           simp only [List.flatMap_map, List.map_flatMap, pushed_shift]
         rw [this, ih _ (by omega) _ rfl]
 
+/-- what an item pushes lies below it: the name path only grows -/
+theorem namePath_kidsFrom (p : List Str) (s : Bool) (i : Nat) (ks : List FNode) (c : QItem)
+    (hc : c ∈ kidsFrom p s i ks) : ∃ ext, namePath c.1 c.2 = p ++ ext := by
+  induction ks generalizing i with
+  | nil => simp [kidsFrom] at hc
+  | cons k ks ih =>
+    simp only [kidsFrom, List.mem_cons] at hc
+    rcases hc with rfl | h
+    · simp only [namePath]
+      split
+      · exact ⟨[natStr i] ++ k.name.toList, by simp [List.append_assoc]⟩
+      · exact ⟨k.name.toList, rfl⟩
+    · exact ih (i + 1) h
+
+theorem namePath_pushed (it c : QItem) (hc : c ∈ pushed it) :
+    ∃ ext, namePath c.1 c.2 = namePath it.1 it.2 ++ ext := by
+  obtain ⟨p, n⟩ := it
+  simp only [pushed] at hc
+  split at hc
+  · exact namePath_kidsFrom _ _ _ _ c hc
+  · simp at hc
+
+/-- selecting by the first token of the path selects whole subtrees -/
+theorem bfsPath_filter_head (t : Str) (q : List QItem) (hq : ∀ it ∈ q, namePath it.1 it.2 ≠ []) :
+    (bfsPath q).filter (fun x => x.1.head? == some t)
+      = bfsPath (q.filter (fun it => (namePath it.1 it.2).head? == some t)) := by
+  induction h : qsize q using Nat.strongRecOn generalizing q with
+  | _ n ih =>
+    cases q with
+    | nil => simp [bfsPath_nil]
+    | cons it q =>
+      rw [bfsPath_level, bfsPath_level ((it :: q).filter _)]
+      have hs := qsize_flatMap_pushed (it :: q)
+      simp only [List.length_cons] at hs
+      have hq' : ∀ c ∈ (it :: q).flatMap pushed, namePath c.1 c.2 ≠ [] := by
+        intro c hc
+        obtain ⟨a, ha, hca⟩ := List.mem_flatMap.mp hc
+        obtain ⟨ext, he⟩ := namePath_pushed a c hca
+        rw [he]
+        have := hq a ha
+        intro hnil
+        exact this (List.append_eq_nil_iff.mp hnil).1
+      rw [List.filter_append, ih _ (by omega) _ hq' rfl]
+      generalize (it :: q) = l at hq
+      congr 1
+      · induction l with
+        | nil => simp
+        | cons a as iha =>
+          have hqa : ∀ it ∈ as, namePath it.1 it.2 ≠ [] := fun x hx => hq x (List.mem_cons_of_mem _ hx)
+          simp only [List.flatMap_cons, List.filter_append, iha hqa, List.filter_cons]
+          by_cases hsel : ((namePath a.1 a.2).head? == some t) = true
+          · simp only [hsel, if_true, List.flatMap_cons]
+            congr 1
+            apply List.filter_eq_self.mpr
+            intro x hx
+            unfold ownPath at hx
+            split at hx <;> simp at hx
+            subst hx; exact hsel
+          · simp only [hsel, if_false, Bool.false_eq_true]
+            have : (ownPath a).filter (fun x => x.1.head? == some t) = [] := by
+              apply List.filter_eq_nil_iff.mpr
+              intro x hx
+              unfold ownPath at hx
+              split at hx <;> simp at hx
+              subst hx; exact hsel
+            simp [this]
+      · congr 1
+        induction l with
+        | nil => simp
+        | cons a as iha =>
+          have hqa : ∀ it ∈ as, namePath it.1 it.2 ≠ [] := fun x hx => hq x (List.mem_cons_of_mem _ hx)
+          have hne := hq a (by simp)
+          have hkid : ∀ c ∈ pushed a, ((namePath c.1 c.2).head? == some t)
+              = ((namePath a.1 a.2).head? == some t) := by
+            intro c hc
+            obtain ⟨ext, he⟩ := namePath_pushed a c hc
+            rw [he]
+            cases hnp : namePath a.1 a.2 with
+            | nil => exact absurd hnp hne
+            | cons x xs => simp
+          simp only [List.flatMap_cons, List.filter_append, iha hqa, List.filter_cons]
+          by_cases hsel : ((namePath a.1 a.2).head? == some t) = true
+          · simp only [hsel, if_true, List.flatMap_cons]
+            congr 1
+            apply List.filter_eq_self.mpr
+            intro c hc; rw [hkid c hc]; exact hsel
+          · simp only [hsel, if_false, Bool.false_eq_true]
+            have : (pushed a).filter (fun it => (namePath it.1 it.2).head? == some t) = [] := by
+              apply List.filter_eq_nil_iff.mpr
+              intro c hc; rw [hkid c hc]; exact hsel
+            simp [this]
+
+/-- every emitted path extends the name path of some item of the queue -/
+theorem bfsPath_mem (q : List QItem) (x : PPair) (hx : x ∈ bfsPath q) :
+    ∃ it ∈ q, ∃ ext, x.1 = namePath it.1 it.2 ++ ext := by
+  induction h : qsize q using Nat.strongRecOn generalizing q with
+  | _ n ih =>
+    cases q with
+    | nil => simp [bfsPath_nil] at hx
+    | cons it q =>
+      rw [bfsPath_level] at hx
+      have hs := qsize_flatMap_pushed (it :: q)
+      simp only [List.length_cons] at hs
+      rcases List.mem_append.mp hx with h1 | h1
+      · obtain ⟨a, ha, hxa⟩ := List.mem_flatMap.mp h1
+        unfold ownPath at hxa
+        split at hxa <;> simp at hxa
+        exact ⟨a, ha, [], by simp [hxa]⟩
+      · obtain ⟨c, hc, ext, he⟩ := ih _ (by omega) _ h1 rfl
+        obtain ⟨a, ha, hca⟩ := List.mem_flatMap.mp hc
+        obtain ⟨ext2, he2⟩ := namePath_pushed a c hca
+        exact ⟨a, ha, ext2 ++ ext, by rw [he, he2, List.append_assoc]⟩
+
 end Flatland.Flat
